@@ -190,7 +190,7 @@ func (w *dworld) after() string {
 
 func (w *dworld) fail(sig, detail string) {
 	c.Violate(lib.Violation{Sig: sig, Detail: fmt.Sprintf("%s\nconfiguration %s, event path: %s", detail, w.cf.name, names(w.cf, w.path[:w.step+1])),
-		Replay: map[string]any{"cfg": w.cf.name, "path": w.path[:w.step+1], "events": names(w.cf, w.path[:w.step+1])}})
+		Replay: replayOf(w.cf, w.path[:w.step+1])})
 	w.stop = true
 }
 
@@ -443,7 +443,7 @@ func (w *syworld) after() string {
 
 func (w *syworld) fail(sig, detail string) {
 	c.Violate(lib.Violation{Sig: sig, Detail: fmt.Sprintf("%s\nconfiguration %s (syncAcks=%d, %d replica(s)), event path: %s\nstate: %s", detail, w.cf.name, w.cf.acks, w.cf.nrep, names(w.cf, w.path[:w.step+1]), w.key()),
-		Replay: map[string]any{"cfg": w.cf.name, "path": w.path[:w.step+1], "events": names(w.cf, w.path[:w.step+1])}})
+		Replay: replayOf(w.cf, w.path[:w.step+1])})
 	w.stop = true
 }
 
@@ -655,7 +655,7 @@ func (cf *syconfig) Run(path []int) (string, bool) {
 			}
 			if err != nil {
 				w.rep[ev.R] = nil
-				c.Violate(lib.Violation{Sig: "restart-failed replica " + w.after(), Detail: err.Error()})
+				c.Violate(lib.Violation{Sig: "restart-failed replica " + w.after(), Detail: err.Error(), Replay: replayOf(cf, path[:w.step+1])})
 				return "", true
 			}
 			if ns := stateOf(w.rep[ev.R]); ns != rs {
@@ -669,7 +669,7 @@ func (cf *syconfig) Run(path []int) (string, bool) {
 			}
 			if err != nil {
 				w.prim = nil
-				c.Violate(lib.Violation{Sig: "restart-failed primary " + w.after(), Detail: err.Error()})
+				c.Violate(lib.Violation{Sig: "restart-failed primary " + w.after(), Detail: err.Error(), Replay: replayOf(cf, path[:w.step+1])})
 				return "", true
 			}
 			for r := range w.reported {
@@ -692,11 +692,11 @@ func (cf *syconfig) Run(path []int) (string, bool) {
 
 func dbConfigs() []config {
 	k := 2
-	if c.Thorough() {
+	if full() {
 		k = 3
 	}
 	return []config{newDConfig(),
-		newSyConfig("db-sync-acks1-1replica", 1, 1, k, c.Thorough()),
+		newSyConfig("db-sync-acks1-1replica", 1, 1, k, full()),
 		newSyConfig("db-sync-acks1-2replicas", 1, 2, 2, false),
-		newSyConfig("db-sync-acks2-2replicas", 2, 2, 2, c.Thorough())}
+		newSyConfig("db-sync-acks2-2replicas", 2, 2, 2, full())}
 }
